@@ -265,7 +265,7 @@ const C06_OR: Oracles = Oracles { returns: false, quiescent: true, ledger: false
 
 /// collision-heavy configurations and adversarial insertion / removal orders
 fn c06_case_strategy() -> impl Strategy<Value = SeqCase> {
-    let hm = prop_oneof![3 => Just(HMode::Const0), 2 => Just(HMode::ConstMax), 3 => Just(HMode::SameBin), 2 => Just(HMode::High), 2 => Just(HMode::Mod4), 1 => Just(HMode::Identity)];
+    let hm = prop_oneof![3 => Just(HMode::Const0), 2 => Just(HMode::ConstMax), 3 => Just(HMode::SameBin), 2 => Just(HMode::High), 2 => Just(HMode::Mod4), 1 => Just(HMode::Identity), 2 => Just(HMode::PairBin), 2 => Just(HMode::FewHigh)];
     let cap = prop_oneof![3 => Just(43u32), 2 => Just(0u32), 1 => Just(16u32), 2 => Just(100u32), 1 => Just(300u32)];
     let uni = prop_oneof![2 => Just(24u16), 3 => Just(64u16), 3 => Just(128u16), 2 => Just(200u16)];
     (hm, cap, uni, facade_strategy(), batch_strategy()).prop_flat_map(|(hmode, capacity, universe, facade, batch)| {
